@@ -28,7 +28,7 @@ RULE = {
 }
 FAULT_KINDS = {"C03": ["crypt_none", "crypt_oserror", "crypt_star0", "crypt_colon", "crypt_empty", "crypt_bytes",
                        "crypt_truncated", "crypt_wrong_prefix", "crypt_garbage", "crypt_capability_loss",
-                       "bcrypt_truncated", "bcrypt_wrong_prefix", "bcrypt_garbage", "bcrypt_import_blocked"]}
+                       "bcrypt_truncated", "bcrypt_wrong_prefix", "bcrypt_garbage", "bcrypt_import_blocked", "bcrypt_metadata_missing"]}
 COMPONENTS = {
     "real": ["passlib.utils.handlers.BackendMixin/SubclassBackendMixin/HasManyBackends/PrefixWrapper",
              "passlib.handlers.{des_crypt,md5_crypt,sha1_crypt,sha2_crypt,bcrypt,scrypt} incl. pure-Python backends",
@@ -200,8 +200,12 @@ def generate(rng, prop, tier):
             elif r2 < 0.9:
                 ops.append({"op": "bcrypt_fault", "kind": rng.choice(["truncated", "wrong_prefix", "garbage"]), "n": 1})
                 ops.append({"op": "hash", "key": k, "mode": "hash"})
-            else:
+            elif r2 < 0.95:
                 ops.append({"op": "bcrypt_import", "blocked": rng.random() < 0.7})
+            else:
+                # a vendored / zipped copy of the bcrypt package: the module imports, its distribution metadata cannot be found
+                ops.append({"op": "bcrypt_metadata", "missing": rng.random() < 0.8})
+                ops.append({"op": "set_backend", "h": h, "name": rng.choice(["bcrypt", "default", "any"]) if fam == "bcrypt" else "any", "via": "self"})
         else:
             ops.append({"op": "hash", "key": k, "mode": "hash"})
     return {"cfg": {"keys": keys, "builtin_bcrypt": builtin_bcrypt, "faults_on": faults_on}, "ops": ops}
@@ -580,6 +584,21 @@ class _World:
         if r is False and not fired and not armed and op["name"] != "any":
             self._expect_unavailable(hname, op["name"])
         ctx.probe("has_backend_true" if r else "has_backend_false")
+        if r in (True, False) and not fired and not armed and op["name"] != "any":
+            # the registry-level spelling of the same question (hasher by name or as object, safe or not): same answer
+            import passlib.registry as preg
+
+            spell = ctx.n_ops % 4
+            with warnings.catch_warnings():
+                warnings.simplefilter("ignore")
+                try:
+                    r2 = preg.has_backend(hname if spell % 2 == 0 else H, op["name"], safe=spell >= 2)
+                except Exception as e:
+                    r2 = _classify(e)
+            f2 = self._fired()
+            if not f2:
+                ctx.check(r2 == r, "C03", "registry-answer-differs", f"passlib.registry.has_backend({hname!r}, {op['name']!r}, safe={spell >= 2}) -> {r2!r}; "
+                          f"{hname}.has_backend({op['name']!r}) -> {r!r}", **attrs)
 
     def op_cross(self, op):
         """the same key under every backend the hasher lists"""
@@ -645,6 +664,21 @@ class _World:
                 self.crypt.lost_schemes.add(op["scheme"])
         elif k == "bcrypt_fault":
             self.bproxy.arm(op["kind"], op.get("n", 1))
+        elif k == "bcrypt_metadata":
+            import importlib.metadata as im
+
+            if not hasattr(self, "_real_md_version"):
+                self._real_md_version = im.version
+            real = self._real_md_version
+
+            def version(name):
+                if name == "bcrypt":
+                    raise im.PackageNotFoundError(name)
+                return real(name)
+
+            im.version = version if op["missing"] else real
+            if op["missing"]:
+                self.ctx.fault("bcrypt_metadata_missing")
         elif k == "bcrypt_import":
             self.import_blocked = bool(op["blocked"])
             if self.import_blocked:
